@@ -411,10 +411,31 @@ func runC17(c *Ctx) {
 		f := c.Fn("dht/provider/buffered.getOperations")
 		cf := f.CFG()
 		info := f.Info()
+		// the operation variable: what the dispatch compares with the operation constants
 		var opObj eng.Object
-		for _, call := range f.Calls("dht/provider/buffered.fromBytes") {
-			if as, ok := p.Parent(call).(*ast.AssignStmt); ok {
-				opObj = eng.ObjOf(info, as.Lhs[0])
+		isOpConst := func(e ast.Expr) bool {
+			co := eng.ConstObj(info, e)
+			return co != nil && eng.NameIn(co.Name(), "provideOnceOp", "startProvidingOp", "forceStartProvidingOp", "stopProvidingOp")
+		}
+		for _, b := range cf.G.Blocks {
+			if !b.Live || cf.Cond(b) == nil {
+				continue
+			}
+			var fts []eng.Fact
+			for si := 0; si < 2; si++ {
+				fts = append(fts, cf.EdgeFacts(b, si)...)
+				for _, grp := range cf.EdgeDisj(b, si) {
+					fts = append(fts, grp...)
+				}
+			}
+			for _, ft := range fts {
+				if x, y, _, ok := ft.EqFact(); ok {
+					if isOpConst(y) && eng.ObjOf(info, x) != nil {
+						opObj = eng.ObjOf(info, x)
+					} else if isOpConst(x) && eng.ObjOf(info, y) != nil {
+						opObj = eng.ObjOf(info, y)
+					}
+				}
 			}
 		}
 		c.Anchor(opObj != nil, "getOperations: op variable not found")
